@@ -75,10 +75,7 @@ let string_of_z = function
   | Zpos p -> string_of_pos p
   | Zneg p -> "-" ^ string_of_pos p
 
-let runner (name : string) : z list -> z list list -> z list list =
-  match name with
-  | "connlimit" -> connlimit_run
-  | _ -> failwith ("unknown component " ^ name)
+let runner = Dispatch.runner
 
 let rec take n l = if n = 0 then ([], l) else match l with x :: r -> let (a, b) = take (n - 1) r in (x :: a, b) | [] -> failwith "short line"
 
